@@ -47,6 +47,17 @@ def _split_mul(t):
     return a, b
 
 
+def _has_negative_coefficient(e):
+    if z3.is_rational_value(e):
+        return e.as_fraction() < 0
+    if _is_mul(e):
+        c = e.arg(0)
+        return z3.is_rational_value(c) and c.as_fraction() < 0
+    if z3.is_app(e) and e.decl().kind() == z3.Z3_OP_UMINUS:
+        return True
+    return False
+
+
 GLOBAL = None
 
 
@@ -68,8 +79,16 @@ def instances_for(t, level):
             (a,) = t.children()
             out += [t > 0, sym.ln(t) == a]
             out.append(z3.Implies(a == 0, t == 1))
-            if _is_mul(a) or True:
-                pass
+            if level <= 1:
+                e = z3.simplify(a, som=True)
+                if z3.is_app(e) and e.decl().kind() == z3.Z3_OP_ADD:
+                    parts = e.children()
+                    prod = sym.exp(parts[0])
+                    for q in parts[1:]:
+                        prod = prod * sym.exp(q)
+                    out.append(t == prod)
+                elif _has_negative_coefficient(e):
+                    out.append(t == 1 / sym.exp(_neg(e)))
         elif name == "ln":
             (a,) = t.children()
             out.append(z3.Implies(a > 0, sym.exp(t) == a))
